@@ -146,6 +146,41 @@ def loop_signature(F, b, head, blocks):
 
 # ---------------------------------------------------------------------------- verified witnesses
 
+def not_a_reference_edges(b, within=None):
+    """blocks entered on the `Err` outcome of `Object::as_reference(..)` (also `x.and_then(Object::as_reference)`): on such an
+    edge the value at hand is a direct object, i.e. a part of the object that holds it — following it is a structural
+    descent into a finite in-memory value, which cannot go on for ever."""
+    out = set()
+    for bi in range(b.n):
+        if within is not None and bi not in within:
+            continue
+        t = b.term(bi)
+        if t["k"] != "switch" or t["dty"] != "isize":
+            continue
+        d = b.def_rv(t["d"])
+        if not (d and d[2] == "rv" and d[3]["k"] == "discr"):
+            continue
+        q = d[3]["p"]
+        if [e for e in q["p"] if e != "*"]:
+            continue
+        dd = b.single_def(q["l"])
+        if not (dd and dd[2] == "call"):
+            continue
+        fn = dd[3]["f"].get("fn") or ""
+        isref = fn.endswith("Object::as_reference")
+        if not isref and fn.rsplit("::", 1)[-1] == "and_then" and len(dd[3]["args"]) == 2:
+            k = op_const(dd[3]["args"][1])
+            isref = k is not None and "as_reference" in ((k.get("fn") or "") + (k.get("res") or ""))
+        if not isref:
+            continue
+        for v, x in t["tg"]:
+            if v == "1":
+                out.add(x)
+        if not any(v == "1" for v, x in t["tg"]) and any(v == "0" for v, x in t["tg"]):
+            out.add(t["else"])
+    return out
+
+
 def check_visited_set(F, b, scc_members, ctx_desc=""):
     """HashSet guard: an `insert` dominates every call into the SCC and a `contains` on the same set dominates the insert."""
     inserts = [c for c in b.calls if re.search(r"HashSet::<.*>::insert$", c.fn or c.name)]
@@ -156,9 +191,13 @@ def check_visited_set(F, b, scc_members, ctx_desc=""):
         return False, "no call into the recursion cycle found in %s" % b.path
     if not inserts or not contains:
         return False, "no HashSet insert/contains pair in %s" % b.path
+    structural = not_a_reference_edges(b)
+    ibs = {i.bb for i in inserts}
     for r in rec:
         if not any(b.dominates(i.bb, r.bb) and i.bb != r.bb for i in inserts):
-            return False, "recursive call at line %d is not dominated by a visited-set insert" % r.ln
+            # every way to the call passes an insert, or the edge on which the value handed on is not a reference
+            if not structural or b.can_reach(0, r.bb, avoid=ibs | structural) or r.bb == 0:
+                return False, "recursive call at line %d is not dominated by a visited-set insert" % r.ln
     for i in inserts:
         if not any(b.dominates(c.bb, i.bb) for c in contains):
             return False, "visited-set insert at line %d is not preceded by a contains test" % i.ln
@@ -495,8 +534,8 @@ def check_visited_loop(b, head, blocks, setname=None):
     con = [c for c in b.calls if c.bb in blocks and re.search(r"HashSet::<.*>::contains$", c.fn or c.name) and setname in b.oname(c.args[0], 2)]
     if not ins or not con:
         return False, "no insert/contains on %s inside the loop" % setname
-    if not every_cycle_passes(b, head, blocks, [c.bb for c in ins]):
-        return False, "a cycle of the loop avoids %s.insert" % setname
+    if not every_cycle_passes(b, head, blocks, [c.bb for c in ins] + sorted(not_a_reference_edges(b, blocks))):
+        return False, "a cycle of the loop avoids %s.insert (and does not pass a not-a-reference edge)" % setname
     for c in con:
         if c.to is None:
             continue
